@@ -649,6 +649,16 @@ def check_C09(tier):
                         "128 MiB + 4096 B per input byte")
     # the verifier's own use of a hostile policy: matching stays linear at every nesting depth; the REFUSAL quotes the
     # failing statement pretty-printed (known finding RefusalPrintsNestedPolicy, identified by that call site)
+    # Printer.tla: the cost model of the refusal text (bytes, newlines, work of the re-indenting printer); the compact printer
+    # satisfies LinearRefusal, the code's way of printing violates it; the real printer is measured against the model's sizes
+    md = 400 if q else 1000
+    c.mc("Printer", "MC_Printer.cfg", dict(MaxDepth=md, Deviations="{}", Inv="LinearRefusal", Emit=""), label="Printer: a compact printer is linear")
+    c.mc("Printer", "MC_Printer.cfg", dict(MaxDepth=md, Deviations='{"ReindentChildren"}', Inv="LinearRefusal", Emit=""), expect_violation="LinearRefusal",
+         label="Printer: re-indenting the operand at every level (what the code does) exceeds 8 MiB + the input size")
+    rp = c.mc("Printer", "MC_Printer.cfg", dict(MaxDepth=md, Deviations='{"ReindentChildren"}', Inv="", Emit="Emit"), label="Printer: sizes of the printed text at every depth")
+    c.replay("printer", [x for x in rp.cases if x["depth"] <= 40 or x["depth"] % 100 == 0],
+             rule="Statement.String() of W^d(== .x 1) for the five wrappers, d <= 40 and every 100 up to %d: bytes and newlines as Printer.tla computes them "
+                  "(a difference is drift of the cost model, not a verdict)" % md)
     depths = [1, 8, 40, 400] if q else [1, 8, 40, 400, 1000]
     c.replay("refusal", [dict(depth=0, wrap="grid")] + [dict(depth=d, wrap=w) for w in ("or", "and", "all", "any", "not") for d in depths],
              rule="invocation.ExecutionAllowed refused by a delegation policy not(W^d(== .x 1)) for W in or / and / all / any / not-not and "
